@@ -27,7 +27,7 @@ RULE = (
     "scope around the yields, record a metric, spawn a task, nested stream}; created inside a "
     "scope (A#1) or outside; consumed in the same scope / a different scope (A#2) / outside any "
     "scope / another task; fully, break after item j, aclose after item j, or never started and "
-    "dropped; non-trivial = consumer context differs from creation context, or the stream is "
+    "dropped; plus two streams created in one scope consumed in 5 orders in / after / outside that scope; non-trivial = consumer context differs from creation context, or the stream is "
     "not consumed to the end"
 )
 ASSUMPTIONS = [
@@ -58,6 +58,7 @@ PLACES = ["same", "other-scope", "outside", "other-task"]
 
 
 def programs(tier: str):
+    yield from _two_programs(tier)
     for k in BOUNDS[tier]["items"]:
         for end in ("normal", "error"):
             for feature in FEATURES:
@@ -88,6 +89,168 @@ def explore_config(tier: str, program) -> dict:
     return {}
 
 
+TWO_ORDERS = ["a-then-b", "b-then-a", "interleaved", "a-break-then-b", "b-aclose-then-a"]
+
+
+def _two_programs(tier: str):
+    # two streams created in ONE scope (optionally with another nested scope run in between),
+    # consumed in every order inside the scope, after it was left, or in another task
+    for ka in (1, 2):
+        for kb in (1, 2):
+            for order in TWO_ORDERS:
+                for place in ("same", "outside", "other-task"):
+                    for between in (False, True):
+                        yield {"two": True, "ka": ka, "kb": kb, "order": order, "place": place, "between": between}
+
+
+def _two_streams(program, ch: Chooser) -> Result:  # noqa: C901, PLR0912, PLR0915
+    ka, kb, order, place, between = program["ka"], program["kb"], program["order"], program["place"], program["between"]
+    loop = VLoop()
+    loop.open()
+    viols: list[dict] = []
+    a1 = A(tag="A#1")
+    tags = {id(a1): "A#1"}
+    completions: list = []
+    ended: dict = {}
+    got: dict = {"a": [], "b": []}
+    inside: list = []
+    timeline: list = []
+
+    def source_for(name: str, k: int):
+        async def source():
+            try:
+                for i in range(k):
+                    inside.append([name, i, _state_token(tags)])
+                    yield f"{name}{i}"
+            finally:
+                timeline.append(f"{name}-cleanup")
+
+        return source
+
+    async def drain(name, it, limit=None):
+        n = 0
+        try:
+            while limit is None or n < limit:
+                got[name].append(await it.__anext__())
+                n += 1
+            ended[name] = "abandoned"
+        except StopAsyncIteration:
+            ended[name] = "end"
+            timeline.append(f"{name}-end")
+        except BaseException as exc:  # noqa: BLE001
+            ended[name] = f"raised {type(exc).__name__}: {exc}"[:120]
+
+    async def consume(sa, sb):
+        ia, ib = sa.__aiter__(), sb.__aiter__()
+        if order == "a-then-b":
+            await drain("a", ia)
+            await drain("b", ib)
+        elif order == "b-then-a":
+            await drain("b", ib)
+            await drain("a", ia)
+        elif order == "interleaved":
+            for _ in range(max(ka, kb) + 1):
+                if ended.get("a") != "end":
+                    await drain("a", ia, 1)
+                if ended.get("b") != "end":
+                    await drain("b", ib, 1)
+        elif order == "a-break-then-b":
+            await drain("a", ia, 1)
+            try:
+                await ia.aclose()
+                ended["a"] = "closed"
+                timeline.append("a-end")
+            except BaseException as exc:  # noqa: BLE001
+                ended["a"] = f"aclose raised {type(exc).__name__}: {exc}"[:120]
+            await drain("b", ib)
+        else:
+            await drain("b", ib, 1)
+            try:
+                await ib.aclose()
+                ended["b"] = "closed"
+                timeline.append("b-end")
+            except BaseException as exc:  # noqa: BLE001
+                ended["b"] = f"aclose raised {type(exc).__name__}: {exc}"[:120]
+            await drain("a", ia)
+
+    def done_cb(m):
+        completions.append(list(timeline))
+
+    async def main():
+        box: dict = {}
+        handoff = loop.create_future()
+        other = None
+        if place == "other-task":
+
+            async def other_task():
+                sa, sb = await handoff
+                await consume(sa, sb)
+
+            other = loop.create_task(other_task())
+            await asyncio.sleep(0)
+        async with ctx.scope("creator", a1, completion=done_cb):
+            box["a"] = ctx.stream(source_for("a", ka))
+            if between:
+                async with ctx.scope("between"):
+                    await asyncio.sleep(0)
+            box["b"] = ctx.stream(source_for("b", kb))
+            if place == "same":
+                await consume(box.pop("a"), box.pop("b"))
+            elif place == "other-task":
+                handoff.set_result((box.pop("a"), box.pop("b")))
+                if order != "interleaved":
+                    await other  # the other orders are consumed while the scope is still open
+        timeline.append("creator-left")
+        if place == "outside":
+            await consume(box.pop("a"), box.pop("b"))
+        elif other is not None:
+            await other
+
+    try:
+        task = loop.create_task(main())
+        loop.run_ready()
+        fail = None
+        if not task.done():
+            fail = "pending"
+        elif task.cancelled():
+            fail = "cancelled"
+        elif task.exception() is not None:
+            fail = f"{type(task.exception()).__name__}: {task.exception()}"[:160]
+        task = None
+        for _ in range(3):
+            gc.collect()
+            loop.run_ready()
+        w = f"two-streams/{order}/{place}"
+        if fail:
+            viols.append(viol("a-items", f"driver-error/{w}", "no error escapes", fail))
+        want_a = [f"a{i}" for i in range(ka)] if order != "a-break-then-b" else ["a0"]
+        want_b = [f"b{i}" for i in range(kb)] if order != "b-aclose-then-a" else ["b0"]
+        if got["a"] != want_a or got["b"] != want_b:
+            viols.append(viol("a-items", f"items/{w}", [want_a, want_b], [got["a"], got["b"]]))
+        for name, want_end in (("a", "closed" if order == "a-break-then-b" else "end"), ("b", "closed" if order == "b-aclose-then-a" else "end")):
+            if ended.get(name) != want_end:
+                viols.append(viol("a-items", f"terminal/{w}", f"stream {name}: {want_end}", ended.get(name)))
+        bad_ctx = [x for x in inside if x[2] != ["inst", "A#1"]]
+        if bad_ctx:
+            viols.append(viol("b-creation-context", w, "generator body sees A#1", bad_ctx[:3]))
+        # the creating scope completes exactly once, after it was left and both streams ended
+        if len(completions) != 1:
+            viols.append(viol("d-completion", f"count/{w}", 1, len(completions), timeline=timeline))
+        else:
+            at = completions[0]
+            # (the generator's own clean-up marks the end of a stream: the completion may fire
+            # inside the last __anext__/aclose, before the consumer has seen the end)
+            missing = [x for x in ("creator-left", "a-cleanup", "b-cleanup") if x not in at]
+            if missing:
+                viols.append(viol("d-completion", f"premature/{w}", "after the scope was left and both streams ended", f"fired before {missing}", timeline=timeline))
+        bad = [e for e in loop.exc_log]
+        if bad:
+            viols.append(viol("e-loop-handler", w, "empty", bad[:2]))
+        return Result(f"two/{order}/{place}/n={len(completions)}", True, viols, {"timeline": timeline, "ended": ended}, steps=len(timeline) + len(inside))
+    finally:
+        loop.shutdown()
+
+
 def _state_token(tags: dict) -> list:
     try:
         s = ctx.state(A)
@@ -109,6 +272,8 @@ def _log_token() -> list:
 
 
 def execute(program, ch: Chooser) -> Result:  # noqa: C901, PLR0912, PLR0915
+    if program.get("two"):
+        return _two_streams(program, ch)
     k, end, feature, created, place, mode = (
         program["k"],
         program["end"],
